@@ -281,11 +281,16 @@ class AlignmentCollector:
         else:
             for new_region in split_regions:
                 alignments = alignment_storage.get_alignments(new_region)
-                yield self.process_alignments_in_region(new_region, alignments)
+                # alignments that overlap a sub-region may reach beyond it, but never beyond the cluster
+                yield self.process_alignments_in_region(new_region, alignments, current_region)
 
-    def process_alignments_in_region(self, current_region, alignment_storage):
+    def process_alignments_in_region(self, current_region, alignment_storage, read_region=None):
         logger.debug("Processing region %s" % str(current_region))
         gene_info = self.get_gene_info_for_region(current_region)
+        if read_region is not None and self.params.needs_reference and self.chr_record:
+            # the reference sequence has to cover every alignment processed with this gene info
+            gene_info.set_reference_sequence(min(read_region[0], gene_info.all_read_region_start),
+                                             max(read_region[1] + 1, gene_info.all_read_region_end), self.chr_record)
         if gene_info.empty():
             assignment_storage = self.process_intergenic(alignment_storage, current_region)
         else:
